@@ -10,6 +10,7 @@ from vlib import cz, ctuple, run_cases, distinct_count, cstr_z
 import gen as G
 
 PROPS_FILES = ["props/C08.v"]
+ALWAYS_SEARCH = True     # the selection oracle (incl. the long-lived-decoder history) is cheap: run it in the quick tier too
 RULE = ("per multi-definition PGN and per definition: payloads carrying its own match values, each sibling's match "
         "values, one value matching none, and random bits elsewhere; observed = the decode function actually reached "
         "(wrappers installed from outside); non-trivial = payload reaches a non-fallback definition or is rejected; "
@@ -101,6 +102,15 @@ def _payloads(group, rng, per_def):
                 for v in ([rng.choice(sib)] if sib else []) + [(f["Match"] + 1) & ((1 << f["BitLength"]) - 1)]:
                     mask = ((1 << f["BitLength"]) - 1) << f["BitOffset"]
                     out.append((p & ~mask) | (v << f["BitOffset"]))
+        # near misses: each definition's match value with ONE bit of the field flipped (every bit position of
+        # every match field, so a comparison that looks at part of the field only is exposed), other bits random
+        for f in _match_fields(d):
+            for k in range(f["BitLength"]):
+                p = rng.getrandbits(nbits)
+                for g_ in _match_fields(d):
+                    mask = ((1 << g_["BitLength"]) - 1) << g_["BitOffset"]
+                    p = (p & ~mask) | (g_["Match"] << g_["BitOffset"])
+                out.append(p ^ (1 << (f["BitOffset"] + k)))
     out += [0, (1 << nbits) - 1, rng.getrandbits(nbits)]
     return out
 
@@ -206,11 +216,61 @@ def _check_payload(rec, pgn, g, p):
     return None
 
 
+def _decoder_history(groups, rng, n):
+    """ONE long-lived decoder, a history mixing (for multi-definition PGNs) payloads that match a definition, a
+    sibling, or none: the id of every returned message must be the database rule's choice for THAT payload,
+    whatever came before (observe_at of the property: NMEA2000Message.id of the message returned for a payload)"""
+    from nmea2000.decoder import NMEA2000Decoder
+    dec = NMEA2000Decoder()
+    multi = [(pgn, g) for pgn, g in groups.items() if len(g) > 1 and any(_match_fields(d) for d in g)]
+    hist = []
+    for _ in range(n):
+        pgn, g = rng.choice(multi)
+        hist.append((pgn, g, rng.choice(_payloads(g, rng, 1))))
+    # make sure a no-match payload precedes a matching one of the same PGN for every group
+    for pgn, g in multi:
+        ps = _payloads(g, rng, 1)
+        none = [p for p in ps if _spec_select(g, p) is None]
+        some = [p for p in ps if _spec_select(g, p) is not None]
+        if none and some:
+            hist += [(pgn, g, none[0]), (pgn, g, some[0]), (pgn, g, some[-1])]
+    log = []
+    for k, (pgn, g, p) in enumerate(hist):
+        nb = max(1, (p.bit_length() + 7) // 8)
+        data = p.to_bytes(nb, "little")
+        line = "2020-01-01-00:00:00.000,3,%d,7,255,%d,%s" % (pgn, nb, ",".join("%02x" % b for b in data))
+        exp = _spec_select(g, p)
+        try:
+            m = dec.decode_basic_string(line, True)
+            got = None if m is None else m.id
+        except Exception:  # noqa: BLE001
+            got = "raises"       # the selected definition may contain unsupported fields / out-of-range values
+        log.append((pgn, p, got))
+        if got == "raises":
+            continue
+        if got != (exp["Id"] if exp else None):
+            # decisive only if a FRESH decoder gives the database's answer (otherwise a field-level matter, C01)
+            try:
+                m2 = NMEA2000Decoder().decode_basic_string(line, True)
+                fresh = None if m2 is None else m2.id
+            except Exception:  # noqa: BLE001
+                fresh = "raises"
+            if fresh == (exp["Id"] if exp else None):
+                return {"key": "select:history-dependent", "kind": "history",
+                        "history": [[a, hex(b)] for a, b, _ in log],
+                        "what": f"PGN {pgn} payload {p:#x}: database rule selects {exp['Id'] if exp else None}; a long-lived decoder "
+                                f"returns {got} after {k} earlier payloads, a fresh decoder returns {fresh}"}
+    return None
+
+
 def search(ctx):
     groups = _groups(_db())
     rng = ctx.rng
-    rec = _Recorder()
     out = []
+    w = _decoder_history(groups, rng, ctx.n(150, 2000))     # before the recorder replaces the per-definition functions
+    if w:
+        out.append(w)
+    rec = _Recorder()
     focus = [p for h in ctx.hints for p in h.get("failing_pgns", [])] + [c["pgn"] for h in ctx.hints for c in h.get("cases", [])]
     try:
         for pgn, g in groups.items():
@@ -231,6 +291,25 @@ def search(ctx):
 
 def replay(ctx, data):
     w = data.get("witness", data)
+    if w.get("kind") == "history":
+        from nmea2000.decoder import NMEA2000Decoder
+        groups = _groups(_db())
+        dec, bad = NMEA2000Decoder(), None
+        for pgn, ph in w["history"]:
+            p = int(ph, 16)
+            nb = max(1, (p.bit_length() + 7) // 8)
+            line = "2020-01-01-00:00:00.000,3,%d,7,255,%d,%s" % (pgn, nb, ",".join("%02x" % b for b in p.to_bytes(nb, "little")))
+            exp = _spec_select(groups[pgn], p)
+            try:
+                m = dec.decode_basic_string(line, True)
+                got = None if m is None else m.id
+            except Exception:  # noqa: BLE001
+                continue
+            if got != (exp["Id"] if exp else None):
+                bad = (pgn, ph, got, exp["Id"] if exp else None)
+        print("observed:", f"PGN {bad[0]} payload {bad[1]}: returned {bad[2]}, database rule selects {bad[3]}" if bad
+              else "property holds on this history")
+        return bad is not None
     if w.get("kind") != "select":
         return True
     groups = _groups(_db())
